@@ -579,7 +579,8 @@ pub fn check_main(scn: &dyn Scenario, prop_arg: &str, opts: &CheckOptions) -> i3
         }
     });
     let _ = std::fs::create_dir_all(format!("{}/evidence", opts.verif_dir));
-    let path = format!("{}/evidence/{}.json", opts.verif_dir, prop);
+    // (a triage alias such as C08restart writes its own file and never touches the evidence of the registered check)
+    let path = format!("{}/evidence/{}.json", opts.verif_dir, prop_arg);
     std::fs::write(&path, serde_json::to_string_pretty(&evidence).unwrap()).expect("cannot write evidence");
     let _ = std::fs::remove_dir_all(&run_dir);
 
